@@ -1,7 +1,7 @@
 """C16 — Performance metrics: scale invariance, validation, and the stated formulas."""
 import ast
 from sa.lib import *
-from sa.dataflow import Poly, cmp_key, cmp_atoms
+from sa.dataflow import Poly, cmp_key, cmp_atoms, cmp_strip_nan
 from sa.degree import DegreeAnalysis, DegError
 from sa.resolve import walk_function
 
@@ -200,6 +200,14 @@ def s4(ck, an, pm):
     rets = [ast.unparse(r.value) for r in returns_in(fl)]
     ck.check(rets == ["self"], "ARGFLOW", "S4.level-returns-self", fl.f.short, fl.f.loc, "level returns the (validated, per-day collapsed) series", f"level returns {rets}", construct="return self")
     coll = [s for s in all_stmts(fl) if isinstance(s, ast.Assign) and ast.unparse(s.targets[0]) == "self"]
+    for st_ in coll:
+        sg = fl.syntactic_guards(st_)
+        at = fl.node_of(st_).id
+        want = fl.sym.cmp(ast.parse("len(np.unique(self.index.date)) != len(self.index.date)", mode="eval").body, at)
+        ck.check(len(sg) == 1 and cmp_key(sg[0]) == cmp_key(cmp_strip_nan(want)), "GUARD", "S4.collapse-iff-duplicate-dates", fl.f.short, fl.loc(st_),
+                 "the per-day collapse happens exactly when some calendar date occurs more than once",
+                 f"the per-day collapse is conditioned on {[cmp_key(p) for p in sg]} instead of `number of distinct dates != number of observations`", construct=stmt_text(st_))
+    ck.check(len(coll) == 1, "PATHCOUNT", "S4.collapse-present", fl.f.short, fl.f.loc, "level() collapses several observations per day", f"{len(coll)} collapse statements", construct="self = self.groupby(...).last()")
     ok = all(ast.unparse(s.value) == "self.groupby(by=self.index.date).last()" for s in coll)
     ck.check(ok, "ARGFLOW", "S4.intraday-collapse-last", fl.f.short, fl.f.loc, "several observations per day collapse to the last one of the day", f"level collapses with {[ast.unparse(s.value) for s in coll]}",
              construct="self = self.groupby(by=self.index.date).last()")
